@@ -42,7 +42,9 @@ MANIFEST = dict(
          "classes and the whole file system; independently every path the real receiver created or modified is "
          "tested for lying beneath the destination, which yields the escaping stream as replay.  Every run covers a "
          "fixed systematic part (every record type x field x malformation, one stream cut at every byte, every hostile / "
-         "near-hostile name, deep nesting, sizes around the transfer block, symbolic links already inside the destination).",
+         "near-hostile name, deep nesting, sizes around the transfer block, symbolic links already inside the destination, "
+         "and the receiver's environment as a script: st_blksize 0..1 MiB incl. 9216/12288/20480, reads fragmented or cut "
+         "short at every call index, read/write interrupted, open/fstat failing).",
     design_ref="DESIGN.md section 5 C11/C12, section 6 D13",
     note="Lean 4.33 kernel; axioms propext/Classical.choice/Quot.sound at most (audited per theorem every run); "
          "hand-written model tied to pcp_server.c by differential execution of the real source built from /repo's "
@@ -618,14 +620,19 @@ def model_line(c, ents, cnt, var):
 _CAND = re.compile(rb"[CD][0-7]{4} \d* ([^\n\0]*)")
 
 
-def escape_signature(stream, c=None):
+def escape_signature(stream, c=None, escaped=None):
     """narrow class of the D13 finding: the stream contains a control record whose name has a `/` or is `..`;
-    of F12-SYMLINK-FOLLOW: every received name is plain, and a symbolic link was waiting inside the destination"""
-    for m in _CAND.finditer(stream):
-        if pcp.hostile_name(m.group(1)):
+    of F12-SYMLINK-FOLLOW: every received name is plain, a symbolic link was waiting inside the destination, one of the
+    received names IS that link's name, and (when the escaped paths are known) every one of them is the link's target
+    or lies beneath it -- an escape anywhere else, also in a case with links, is `escape:other`"""
+    names = [m.group(1) for m in _CAND.finditer(stream)]
+    for n in names:
+        if pcp.hostile_name(n):
             return "escape:received-name-with-slash-or-dotdot"
     if c is not None and c.get("links"):
-        return "escape:through-symlink-inside-destination"
+        met = [link_target_canon(path, target) for path, target in c["links"] if path.rsplit(b"/", 1)[-1] in names]
+        if met and (escaped is None or all(any(t == b"" or e == t or e.startswith(t + b"/") for t in met) for e in escaped)):
+            return "escape:through-symlink-inside-destination"
     return "escape:other"
 
 
@@ -836,7 +843,7 @@ def judge(ctx, cases, jails, ents_l, answers, crashes, mlines, t0, cov, dist, di
             esc = [pcp.unhx(x).decode("latin-1") for x in sp.split()[1].split(",")]
             cj["escaped_paths"] = esc[:10]
             cj["destination_canonical"] = "/" + dcanon.decode("latin-1")
-            esig = escape_signature(c["stream"], c)
+            esig = escape_signature(c["stream"], c, [pcp.unhx(x) for x in sp.split()[1].split(",")])
             ctx.offender(esig, "the receiver created or modified %s outside its destination /%s" %
                          (", ".join("/" + e for e in esc[:4]), dcanon.decode("latin-1")),
                          dict(small(c, esig), receiver=tag, escaped_paths=esc[:10],
@@ -1049,7 +1056,8 @@ def run(ctx):
                    "the receiver under a file size limit (write faults in the middle of multi-block files, followed by "
                    "files that fit); symbolic links that already exist inside the destination (to a directory, a file, "
                    "nothing, an ancestor; relative and absolute) met by plain received names; a fixed systematic part in every "
-                   "run (see `systematic`); jail around the "
+                   "run (see `systematic`, `env_cases`: scripted st_blksize, fragmented/short/interrupted reads, interrupted/"
+                   "short writes, failing open/fstat at every call index); jail around the "
                    "destination holds victim files/dirs.  non-trivial = the stream starts with >= 1 syntactically "
                    "valid control record; distinct = distinct (stream, dest, options)"}
     dist = {"reply_classes": {}, "escapes": 0, "malformed": 0, "crash": 0, "model_mismatch": 0}
@@ -1110,7 +1118,8 @@ def run(ctx):
                      "(RLIMIT_FSIZE with SIGXFSZ ignored: short write / EFBIG, ftruncate EFBIG)",
                      "Linux path resolution, mkdir/open(O_CREAT)/chmod/utimes/ftruncate semantics as in Pcp/FS.lean",
                      "nothing else modifies the file system during the copy",
-                     "st_blksize of the destination file system rounds up to bp->cnt, a multiple of BUFSIZ"],
+                     "st_blksize of the destination file system: any value (Pcp/Allocbuf.lean; scripted 0..1 MiB in every run); "
+                     "system calls that fail or are cut short are outside the model (injected at every call index, oracle only)"],
         trusted_base=["Lean 4.33 kernel", "axioms: propext, Classical.choice, Quot.sound at most (audited per theorem)",
                       "hand-written receiver model Pcp/Sink.lean + file-system model Pcp/FS.lean tied to pcp_server.c and "
                       "the kernel by differential execution", "Gen/Pcp.lean regenerated from /repo (BUFSIZ, NAME_MAX, "
